@@ -36,11 +36,16 @@ claimed = {
    note=TRUST+"Director hook and RoundTripper are interface/dynamic contracts (assumed); target.alive is racy by design and read as is; NewClient and run are not under contract.",
    design="5/C16", technique="contract-based deductive verification: lock invariant + ghost routing record, z3"),
  "C17": dict(
-   text="Deductive proof of schedule's postconditions (round-robin: element at the cursor and cursor+1 modulo n; random: a live target, cursor unchanged; single target short-cut), "
-        "of target.Update's EWMA over the reals (dial error -> maximum, first sample -> sample, otherwise trunc(old*alpha + new*(1-alpha))) and of heapDown/minHeap preserving the "
-        "element multiset marking (heapify only permutes, bounds and nil-safety), and that check resets the round-robin cursor only when the sorted live address set changed.",
-   note=TRUST+"float64 is treated as real arithmetic; heap-order minimality of the root (LeastTime non-probe pick) is NOT proved deductively: it is covered only by a bounded stand-in (labelled bounded in the evidence: minHeap/heapDown of the real code on every latency arrangement for n <= 6), which is not counted among the discharged obligations; latencies are assumed quiescent during one activation.",
-   design="5/C17", technique="contract-based deductive verification, z3 (nonlinear real arithmetic for the EWMA)"),
+   text="Deductive proof of schedule's postconditions (round-robin: element at the cursor and cursor+1 modulo n; random: a live target, cursor unchanged; single target short-cut; "
+        "LeastTime: a probe is the element at the cursor with the cursor advanced, a non-probe pick is the root of the heap array and its latency estimate is <= that of every element of the heap array), "
+        "of target.Update's EWMA over the reals (dial error -> maximum, first sample -> sample, otherwise trunc(old*alpha + new*(1-alpha))), of heap order for the real heapDown/minHeap "
+        "(sift-down loop invariant: every node but the one being sifted is not above its children and the node above it is not above its grandchildren; heapify establishes the order from index 0; "
+        "the root is minimal by strong induction on the index, an `induct` obligation with the hypothesis used at the parent index), of heapify only permuting marked non-nil elements, "
+        "and that check resets the round-robin cursor only when the sorted live address set changed.",
+   note=TRUST+"float64 is treated as real arithmetic; latencies (atomics) are assumed quiescent during one activation of schedule (a concurrent Update during heapify is outside the proof); "
+        "that the heap array holds exactly the live targets is proved as 'every element is a live target' (lock invariant) and equal length, not as multiset equality with the live list; "
+        "'at most once per Tick' rests on the time comparison in schedule, which is read as written (time.Time is opaque).",
+   design="5/C17", technique="contract-based deductive verification: loop invariants for sift-down/heapify, lemma by induction (induct clause), z3 (nonlinear real arithmetic for the EWMA)"),
  "C18": dict(
    text="Deductive proof of the safety core: closed => no registered waiter (lock invariant at every Unlock of wait, Close, check, director, detect), Close and checkPending drain the "
         "waiter table completely (loop invariants over the ghost enumeration of the map), every registered key is below the sequence counter, close(done) happens at most once (typestate guarded by the CAS), "
